@@ -49,9 +49,9 @@ class BaseFuelBurnModel(ABC):
             specific_ground_range < 1, np.inf, specific_ground_range
         )
         # backwards means last element stays and the rest get adjusted by
-        # addition instead of subtraction
+        # addition instead of subtraction (per-segment distances are reversed too)
         cumulative_integral = cumulative_trapezoid(
-            1 / specific_ground_range_corrected[::-1], dx=segment_distance
+            1 / specific_ground_range_corrected[::-1], dx=np.flip(segment_distance)
         )[::-1]
         mass[:-1] = mass[-1] + cumulative_integral
         return mass
